@@ -116,18 +116,45 @@ func cursorCase(id int, seed int64, out *json.Encoder) {
 		w.Gets = [][]int{}
 		w.Moves = []string{}
 		nm := rng.Intn(2*n + 4)
-		bias := rng.Intn(3) // 0: mostly forward, 1: mostly backward, 2: mixed
+		// shadow position (1..n, 0 = off) only to keep most walks inside the tree; the oracle is in the specification
+		pos := 0
+		switch w.Start {
+		case "min":
+			pos = 1
+		case "max":
+			pos = n
+		default:
+			for i, e := range ev.Ents {
+				if e[0] >= w.P {
+					pos = i + 1
+					break
+				}
+			}
+		}
+		if pos > n {
+			pos = 0
+		}
 		for i := 0; i < nm; i++ {
 			f := rng.Intn(2) == 0
-			if bias == 0 {
-				f = rng.Intn(5) != 0
-			} else if bias == 1 {
-				f = rng.Intn(5) == 0
+			if pos == 1 && !f && rng.Intn(6) != 0 {
+				f = true
+			}
+			if pos == n && f && rng.Intn(6) != 0 {
+				f = false
 			}
 			if f {
 				w.Moves = append(w.Moves, "F")
+				if pos != 0 {
+					pos++
+				}
 			} else {
 				w.Moves = append(w.Moves, "B")
+				if pos != 0 {
+					pos--
+				}
+			}
+			if pos > n {
+				pos = 0
 			}
 		}
 		w.Res, w.Msg = guard(func() error {
